@@ -1,4 +1,5 @@
 import UF.Compose3.CosTop
+import UF.Compose3.CosText
 import UF.Props.C06Top
 /-
   C16 AT THE TOP LEVEL (integration group I3): the cosmetic option of `Engine.MatchRequest(…)` and the
@@ -60,6 +61,34 @@ theorem c16_top_winner (io : IO) (px : E.ParseExt) (lists : List RList) (hok : S
     | true =>
       exact ⟨b, rfl, hw, (C06.c06_top_winner io px lists hok st hnew history history' url sourceURL reqType b hb).1,
         c16_spec_all b hw⟩
+
+/-- C16 FROM THE RULE TEXT (groups A + E composed): for every text `NewNetworkRule` accepts as an exception
+    rule — whatever else it carries (`$domain`, content types, `$important`, `~extension`, …), any order, any
+    repetitions — `GetCosmeticOption` is the reference `specCosmeticOption true` applied to the named modifiers
+    WRITTEN in its options part (`textCosMods`: the comma-separated option names `elemhide`, `generichide`,
+    `jsinject`, `document`, `urlblock`, `genericblock`, `content`, `extension`, `important`). -/
+theorem c16_text (px : E.ParseExt) (t : Bytes) (id : Int) (r : NetRule)
+    (h : E.parseNetRule px t id = .ok r) (hw : r.whitelist = true) :
+    ∃ pat opts, E.parseRuleText t = .ok (pat, opts, true) ∧
+      getCosmeticOption (some r) = specCosmeticOption true (textCosMods opts) :=
+  getCosmeticOption_text h hw
+
+/-- C16 FROM RAW INPUTS AND THE TEXT OF THE WINNER: whenever the result of `Engine.MatchRequest` restricts the
+    cosmetic options, its basic rule `b` is an exception parsed from a line of the lists that matches the
+    request, and the option is the reference applied to the modifiers written in `b`'s TEXT. -/
+theorem c16_top_text (io : IO) (px : E.ParseExt) (lists : List RList) (hok : StorageOK lists)
+    (st : RuleStorage) (hnew : newRuleStorage lists = some st) (history history' : List (BitVec 64))
+    (url sourceURL : Bytes) (reqType : Nat) (b : NetRule)
+    (hb : (engineMatchRequest io px lists st history history' url sourceURL reqType).basicRule = some b)
+    (hw : b.whitelist = true) :
+    b ∈ matchingLines px lists (requestOf px.ext url sourceURL reqType) ∧
+    ∃ pat opts, E.parseRuleText b.text = .ok (pat, opts, true) ∧
+      getCosmeticOption (engineMatchRequest io px lists st history history' url sourceURL reqType).basicRule =
+        specCosmeticOption true (textCosMods opts) := by
+  have hm := (C06.c06_top_winner io px lists hok st hnew history history' url sourceURL reqType b hb).1
+  refine ⟨hm, ?_⟩
+  rw [hb]
+  exact getCosmeticOption_text (allNet_parse (List.mem_filter.1 hm).1) hw
 
 /-- No result re-enables anything: the option is always a subset of `CosmeticOptionAll`. -/
 theorem c16_top_sub_all (io : IO) (px : E.ParseExt) (lists : List RList) (st : RuleStorage)
@@ -139,8 +168,8 @@ theorem c16_top_cosmetic_mono (px : E.ParseExt) (lists : List RList) (hostname :
     (decodeCosmeticFlags option').1 (decodeCosmeticFlags option').2.1 (decodeCosmeticFlags option').2.2 d1 d3
   exact ⟨fun c hc => (a1 c).2 (m1 c ((b1 c).1 hc)), fun c hc => (a2 c).2 (m2 c ((b2 c).1 hc))⟩
 
-/-! ### Non-vacuity: an `$elemhide` exception for the page decides the option (JS only… plus nothing else),
-    and the cosmetic result for that option is empty while the full option gives both selectors. -/
+/-! ### Non-vacuity: an `$elemhide` exception for the page decides the option (only the JS bit is left), and
+    the cosmetic result for that option is empty while the full option gives both selectors. -/
 
 private def exPx : E.ParseExt :=
   { ext := { psl := fun _ => (lit "org", true), parseAddr := fun _ => none,
@@ -154,6 +183,7 @@ example :
     let m := engineMatchRequest ⟨4096, fun _ => 1⟩ exPx exLists ⟨exLists, []⟩ [] [] (lit "http://site.org/") [] 1
     m.basicRule.map (·.text) = some (lit "@@||site.org^$elemhide") ∧
     m.basicRule.map cosModsOf = some [.elemhide] ∧
+    textCosMods (lit "elemhide") = [.elemhide] ∧ textCosMods (lit "domain=a.org|b.org,document,~extension") = [.document] ∧
     getCosmeticOption m.basicRule = cosJS ∧
     engineCosmeticResult exPx exLists (lit "site.org") (getCosmeticOption m.basicRule) = ([], []) ∧
     engineCosmeticResult exPx exLists (lit "site.org") cosAll = ([lit ".ad"], [lit ".banner"]) := by
